@@ -12,7 +12,10 @@ EXTENDS Naturals, Sequences, FiniteSets, TLC
 
 CONSTANTS Conns, Nodes,
           MaxReq,       \* requests per connection
-          SessCap       \* capacity of the session queue (code: 32)
+          SessCap,      \* capacity of the session queue (code: 32)
+          ChildrenMayFail,   \* a child of a split request may be answered with an error (backend lost, no host)
+          ErrorCompletesParent \* FALSE = the code: every child only decrements the counter, the parent is completed when
+                               \* it reaches zero; TRUE = a (wrong) variant in which a failing child completes the parent at once
 
 Kinds == {"local", "simple", "multi"}
 
@@ -22,9 +25,11 @@ VARIABLES
   sq,         \* sq[c]: session queue, request indexes in read order
   left,       \* left[c][k]: children not yet answered
   bq,         \* bq[n]: FIFO of <<c, k, j>> children written to node n and not yet answered
-  out         \* out[c]: request indexes in the order their replies were written
+  out,        \* out[c]: request indexes in the order their replies were written
+  pcompl      \* pcompl[c][k]: how many times the k-th request of c has been completed (a second completion closes a
+              \* closed channel: the process dies)
 
-vars == <<nsent, plan, sq, left, bq, out>>
+vars == <<nsent, plan, sq, left, bq, out, pcompl>>
 
 Targets == {<<>>} \cup {<<n>> : n \in Nodes} \cup {<<n, m>> : n \in Nodes, m \in Nodes}
 
@@ -35,6 +40,7 @@ Init ==
   /\ left = [c \in Conns |-> <<>>]
   /\ bq = [n \in Nodes |-> <<>>]
   /\ out = [c \in Conns |-> <<>>]
+  /\ pcompl = [c \in Conns |-> <<>>]
 
 RECURSIVE Enq(_, _, _, _, _)
 \* enqueue child j.. of request (c,k) with targets tg into the backend queues, in argument order
@@ -53,6 +59,7 @@ ClientSend(c, tg) ==
        /\ left' = [left EXCEPT ![c] = Append(@, Len(tg))]
        /\ bq' = Enq(bq, c, k, tg, 1)
        /\ sq' = [sq EXCEPT ![c] = Append(@, k)]
+       /\ pcompl' = [pcompl EXCEPT ![c] = Append(@, IF Len(tg) = 0 THEN 1 ELSE 0)]   \* local commands are answered at once
   /\ UNCHANGED out
 
 (* node n answers the oldest command it has received; the backend reader pairs   *)
@@ -60,7 +67,21 @@ ClientSend(c, tg) ==
 (* a split request is decremented                                                 *)
 BackendReply(n) ==
   /\ bq[n] # <<>>
-  /\ LET h == Head(bq[n]) IN left' = [left EXCEPT ![h[1]][h[2]] = @ - 1]
+  /\ LET h == Head(bq[n]) IN
+       /\ left' = [left EXCEPT ![h[1]][h[2]] = @ - 1]
+       /\ pcompl' = [pcompl EXCEPT ![h[1]][h[2]] = IF left[h[1]][h[2]] = 1 THEN @ + 1 ELSE @]
+  /\ bq' = [bq EXCEPT ![n] = Tail(@)]
+  /\ UNCHANGED <<nsent, plan, sq, out>>
+
+(* a child is answered with an error (its backend was lost, no host available, ...): onChildDone *)
+ChildFails(n) ==
+  /\ ChildrenMayFail /\ bq[n] # <<>>
+  /\ LET h == Head(bq[n]) IN
+       IF ErrorCompletesParent
+         THEN /\ pcompl' = [pcompl EXCEPT ![h[1]][h[2]] = @ + 1]
+              /\ left' = [left EXCEPT ![h[1]][h[2]] = 0]
+         ELSE /\ left' = [left EXCEPT ![h[1]][h[2]] = @ - 1]
+              /\ pcompl' = [pcompl EXCEPT ![h[1]][h[2]] = IF left[h[1]][h[2]] = 1 THEN @ + 1 ELSE @]
   /\ bq' = [bq EXCEPT ![n] = Tail(@)]
   /\ UNCHANGED <<nsent, plan, sq, out>>
 
@@ -69,11 +90,11 @@ SessionWrite(c) ==
   /\ sq[c] # <<>> /\ left[c][Head(sq[c])] = 0
   /\ out' = [out EXCEPT ![c] = Append(@, Head(sq[c]))]
   /\ sq' = [sq EXCEPT ![c] = Tail(@)]
-  /\ UNCHANGED <<nsent, plan, left, bq>>
+  /\ UNCHANGED <<nsent, plan, left, bq, pcompl>>
 
 Next ==
   \/ \E c \in Conns, tg \in Targets : ClientSend(c, tg)
-  \/ \E n \in Nodes : BackendReply(n)
+  \/ \E n \in Nodes : BackendReply(n) \/ ChildFails(n)
   \/ \E c \in Conns : SessionWrite(c)
 
 Spec == Init /\ [][Next]_vars /\ WF_vars(\E n \in Nodes : BackendReply(n)) /\ WF_vars(\E c \in Conns : SessionWrite(c))
@@ -83,6 +104,9 @@ Spec == Init /\ [][Next]_vars /\ WF_vars(\E n \in Nodes : BackendReply(n)) /\ WF
 ReplyOrder == \A c \in Conns : \A i \in 1..Len(out[c]) : out[c][i] = i
 \* a reply is written only when all children of the request have been answered
 OnlyComplete == \A c \in Conns : \A i \in 1..Len(out[c]) : left[c][out[c][i]] = 0
+\* a request is completed at most once, and exactly once before its reply is written
+ParentOnce == \A c \in Conns : \A k \in 1..Len(pcompl[c]) : pcompl[c][k] <= 1
+WrittenComplete == \A c \in Conns : \A i \in 1..Len(out[c]) : pcompl[c][out[c][i]] = 1
 \* never more replies than requests
 NeverAhead == \A c \in Conns : Len(out[c]) + Len(sq[c]) = nsent[c]
 \* every request read is eventually answered (backends answer eventually)
